@@ -356,7 +356,7 @@ RECIPES["C11"] = {
 
 import gen_shim as _gen_shim
 
-_HOOKS = ["hook_0", "hook_1", "hook_2", "hook_3", "hook_4", "hook_5", "iauth_xquery_services_changed", "iauth_class_conf_changed",
+_HOOKS = ["hook_0", "hook_1", "hook_2", "hook_3", "hook_4", "hook_5", "iauth_xquery_services_changed", "iauth_xquery_service_changed", "iauth_class_conf_changed",
           "log_rescan_conf", "log_rescan_type"]
 FP_CONFIG = {
     "set_splay.function_pointer_call.1": _CMPS, "set_splay.function_pointer_call.2": _CMPS, "set_splay.function_pointer_call.3": _CMPS,
@@ -424,3 +424,29 @@ RECIPES["C15"]["jobs"].insert(0,
      "splits": {"all": [{"_name": "%s_r%d%d%d" % (k[2:].lower(), r, a, b), k: None, "REG": r, "IN0": a, "IN1": b}
                         for k in ("K_STRING", "K_INADDR", "K_LIST") for r in (0, 1) for a in (0, 1) for b in (0, 1)]},
      "unwind": 6, "unwindset": CONFIG_UW, "fp_restrict": FP_CONFIG, "timeout": 900})
+
+RECIPES["C17"] = {
+    "units": ["src/config.c", "modules/iauth_xquery.c", "modules/iauth_class.c"],
+    "jobs": [
+        {"name": "xquery", "src": ["C17_reload.c", "repo:modules/iauth_misc.c", "repo:src/set.c", "repo:src/common.c", "repo:src/bitset.c",
+                                   "env/rec.c", "env/iauth_env.c", "env/config_env.c", "env/core_env.c", "env/libc_models.c"],
+         "gen": _gen_shim.gen,
+         "splits": {"all": [{"_name": "add", "VP_M0": 1, "VP_M1": 3}, {"_name": "remove", "VP_M0": 3, "VP_M1": 1},
+                            {"_name": "inplace", "VP_M0": 3, "VP_M1": 3}, {"_name": "swap", "VP_M0": 1, "VP_M1": 2},
+                            {"_name": "from_empty", "VP_M0": 0, "VP_M1": 3}, {"_name": "to_empty", "VP_M0": 3, "VP_M1": 0}]},
+         "unwind": 14, "unwindset": CONFIG_UW + ["strcmp.0:14", "strcasecmp.0:14", "strlen.0:14", "strcpy.0:14", "dup_type.0:14"],
+         "fp_restrict": FP_CONFIG, "timeout": 900},
+    ],
+}
+
+RECIPES["C17"]["jobs"].append(
+    {"name": "class", "src": ["C17_class.c", "repo:modules/iauth_misc.c", "repo:src/set.c", "repo:src/common.c", "repo:src/bitset.c",
+                              "env/rec.c", "env/iauth_env.c", "env/config_env.c", "env/core_env.c", "env/libc_models.c"],
+     "gen": _gen_shim.gen,
+     # per rule 4 bits: present, class, account, trust_username; low nibble rule p, high nibble rule q
+     "splits": {"all": [{"_name": "add_rule", "VP_R0": "0x03", "VP_R1": "0x73"}, {"_name": "remove_rule", "VP_R0": "0x73", "VP_R1": "0x70"},
+                        {"_name": "inplace_value", "VP_R0": "0x0f", "VP_R1": "0x0f"}, {"_name": "add_criterion", "VP_R0": "0x03", "VP_R1": "0x07"},
+                        {"_name": "drop_criterion", "VP_R0": "0x3f", "VP_R1": "0x33"}, {"_name": "from_empty", "VP_R0": "0x00", "VP_R1": "0x37"}]},
+     "unwind": 14, "unwindset": CONFIG_UW + ["strcmp.0:14", "strcasecmp.0:16", "strlen.0:16", "strcpy.0:16", "boolword.0:8",
+                                             "iauth_class_conf_changed.0:4", "iauth_class_conf_changed.1:4", "iauth_class_free_rules.0:4"],
+     "fp_restrict": FP_CONFIG, "timeout": 900})
